@@ -22,7 +22,7 @@ func TestC05(t *testing.T) {
 	mon.Main(t, mon.Check{
 		ID:    "C05",
 		Level: "exploration",
-		Rule:  "full stack in real time: real mailbox.Server/Accept and mailbox.Client/Dial (GBN inside) over an in-memory hashmail relay (semantics of aperture's hashmail server), real NoiseGrpcConn handshakes on top, gRPC-like drivers (accept loop; dial loop that re-dials when a connection fails). Each session transfers a PRNG sequence of writes (sizes 0..65535 incl. 32767/32768/32769/65534/65535) in both directions with PRNG read-buffer sizes; after a connection failure the application restarts its transfer on the next connection. Relay faults until a cut-off: per-message drop and delay, Send/Recv stream errors at PRNG points (forcing the re-create-and-retry loops), NewCipherBox/RecvStream/SendStream failures. Oracles: on every secured connection the bytes read equal, position by position, the bytes the peer writes on its connection (prefix; any mismatch, duplicate or gap is a violation); after faults cease the transfer completes (possibly after re-dials) or the deadline miss is re-run alone with a 300 s deadline and only a reproduced silent hang is a violation: relay traffic still flowing without a visible failure, or no relay operation at all for 20 s (every live piece of the client has a timer of at most 10 s that ends in a relay operation); otherwise inconclusive; every CipherBox.Msg the relay ever saw is scanned for 24-byte windows of both plaintext streams and for the auth payload (raw/hex/base64). Non-trivial = a session with at least one injected fault that delivered bytes in both directions; distinct = (fault profile, sizes hash).",
+		Rule:  "full stack in real time: real mailbox.Server/Accept and mailbox.Client/Dial (GBN inside) over an in-memory hashmail relay (semantics of aperture's hashmail server), real NoiseGrpcConn handshakes on top, gRPC-like drivers (accept loop; dial loop that re-dials when a connection fails). Each session transfers a PRNG sequence of writes (sizes 0..65535 incl. 32767/32768/32769/65534/65535) in both directions with PRNG read-buffer sizes; after a connection failure the application restarts its transfer on the next connection; a quarter of the sessions give up their first connection themselves after a PRNG number of bytes (usually inside a record). Relay faults until a cut-off: per-message drop and delay, Send/Recv stream errors at PRNG points (forcing the re-create-and-retry loops), NewCipherBox/RecvStream/SendStream failures. Oracles: on every secured connection the bytes read equal, position by position, the bytes the peer writes on its connection (prefix; any mismatch, duplicate or gap is a violation); after faults cease the transfer completes (possibly after re-dials) or the deadline miss is re-run alone with a 300 s deadline and only a reproduced silent hang is a violation: relay traffic still flowing without a visible failure, or no relay operation at all for 20 s (every live piece of the client has a timer of at most 10 s that ends in a relay operation); otherwise inconclusive; every CipherBox.Msg the relay ever saw is scanned for 24-byte windows of both plaintext streams and for the auth payload (raw/hex/base64). Non-trivial = a session with at least one injected fault that delivered bytes in both directions; distinct = (fault profile, sizes hash).",
 		Assumptions: []string{
 			"real time: progress verdicts follow the re-run rule of DESIGN 1.3; safety verdicts do not depend on time",
 			"the relay is a model of aperture's hashmail server (one reader and one writer per box, FIFO, errors as gRPC surfaces them)",
@@ -193,6 +193,15 @@ func c05Session(seed int64, deadline time.Duration) *c05Result {
 	// that more than a window of GBN messages waits behind it.
 	idleFirst := rng.Intn(4) == 0
 	slowReader := rng.Intn(4) == 0
+	// Some sessions give up their first connection in the middle of the
+	// transfer (the reader stops after some bytes, usually inside a record,
+	// and closes): the transfer restarts on the next connection, which is
+	// served by the same credentials objects.
+	abandonA, abandonB := 0, 0
+	if rng.Intn(4) == 0 {
+		abandonA, abandonB = 1+rng.Intn(totalA), 1+rng.Intn(totalB)
+		profile += "+abandon"
+	}
 	if idleFirst {
 		profile += "+idle"
 	}
@@ -218,13 +227,16 @@ func c05Session(seed int64, deadline time.Duration) *c05Result {
 		mu.Unlock()
 	}
 	// reader: verifies the incoming stream position by position
-	reader := func(conn net.Conn, dir byte, total int, done *atomic.Bool, cnt *atomic.Int64, br *rand.Rand) {
+	reader := func(conn net.Conn, dir byte, total int, done *atomic.Bool, cnt *atomic.Int64, br *rand.Rand, stopAfter int) {
 		bufs := []int{1, 2, 3, 17, 4096, 32767, 32768, 32769, 65535, 100000}
 		off := 0
 		if slowReader {
 			time.Sleep(time.Duration(700+br.Intn(800)) * time.Millisecond)
 		}
 		for off < total {
+			if stopAfter > 0 && off >= stopAfter {
+				return
+			}
 			if slowReader && br.Intn(12) == 0 {
 				time.Sleep(time.Duration(br.Intn(400)) * time.Millisecond)
 			}
@@ -259,10 +271,25 @@ func c05Session(seed int64, deadline time.Duration) *c05Result {
 			}
 		}
 		done.Store(true)
+		// Like a transport's reader goroutine, keep reading: this is how
+		// the application notices that the peer closed the connection
+		// (the caller then closes its side, which lets the listener /
+		// dialer hand out the next one). Nothing may arrive any more.
+		for {
+			b := make([]byte, 4096)
+			n, err := conn.Read(b)
+			if n > 0 {
+				setSafety("extra-bytes", fmt.Sprintf("direction %c: %d byte(s) arrived after the %d bytes the peer wrote", dir, n, total))
+				return
+			}
+			if err != nil {
+				return
+			}
+		}
 	}
 	stop := make(chan struct{})
 	var appWG sync.WaitGroup
-	serve := func(ch chan net.Conn, wdir, rdir byte, wsizes []int, rtotal int, rdone *atomic.Bool, rcnt *atomic.Int64) {
+	serve := func(ch chan net.Conn, wdir, rdir byte, wsizes []int, rtotal int, rdone *atomic.Bool, rcnt *atomic.Int64, abandon int) {
 		defer appWG.Done()
 		k := int64(0)
 		for {
@@ -292,17 +319,19 @@ func c05Session(seed int64, deadline time.Duration) *c05Result {
 				}()
 				go func(k int64) {
 					defer appWG.Done()
-					reader(conn, rdir, rtotal, rdone, rcnt, rand.New(rand.NewSource(bufSeed+k)))
-					if !rdone.Load() {
-						_ = conn.Close()
+					stopAfter := 0
+					if k == 1 {
+						stopAfter = abandon
 					}
+					reader(conn, rdir, rtotal, rdone, rcnt, rand.New(rand.NewSource(bufSeed+k)), stopAfter)
+					_ = conn.Close()
 				}(k)
 			}
 		}
 	}
 	appWG.Add(2)
-	go serve(m.SConns, 'b', 'a', sizesB, totalA, &doneA, &bytesA)
-	go serve(m.CConns, 'a', 'b', sizesA, totalB, &doneB, &bytesB)
+	go serve(m.SConns, 'b', 'a', sizesB, totalA, &doneA, &bytesA, abandonA)
+	go serve(m.CConns, 'a', 'b', sizesA, totalB, &doneB, &bytesB, abandonB)
 
 	tick := time.NewTicker(100 * time.Millisecond)
 	defer tick.Stop()
@@ -372,4 +401,18 @@ func c05Session(seed int64, deadline time.Duration) *c05Result {
 	res.rep["progress"] = res.progress
 	res.rep["events"] = fmt.Sprintf("%+v", m.EventsCopy())
 	return res
+}
+
+// TestC05Debug runs one session by seed (C05_ONLY_SEED) and prints its progress;
+// with C05_DUMP set, a goroutine dump and the relay log are written if the
+// session does not complete. It is a debugging aid, not a registered check.
+func TestC05Debug(t *testing.T) {
+	s := getenv("C05_ONLY_SEED")
+	if s == "" {
+		t.Skip("C05_ONLY_SEED not set")
+	}
+	var seed int64
+	fmt.Sscan(s, &seed)
+	r := c05Session(seed, 60*time.Second)
+	fmt.Printf("completed=%v safety=%q desync=%v quiet=%v progress=%s\n", r.completed, r.safety, r.desync, r.quietTail, r.progress)
 }
